@@ -359,7 +359,7 @@ def unit_body_factory(ctx):
             a = np.asarray(joker.marginal_ln_likelihood(data, sub, n_batches=spec["n_batches"]), dtype=float)
             b = np.asarray(joker.marginal_ln_likelihood(data, fn, n_batches=max(1, spec["n_batches"] // 2)), dtype=float)
         for what, got in (("object through the cache file", a), ("file name", b)):
-            if got.shape != (len(idx),) or np.any(np.abs(got - base[idx]) > tol[idx]):
+            if got.shape != (len(idx),) or not np.all(np.abs(got - base[idx]) <= tol[idx]):
                 raise Violation("likelihoods of a library stored in other units differ between the in-memory path and the "
                                 "%s path" % what, units=spec["row_units"], in_memory=base[idx][:6], other=got[:6],
                                 allowed=tol[idx][:6])
